@@ -1033,19 +1033,20 @@ class Engine:
             if a.k in ("ref", "val") or b.k in ("ref", "val"):
                 raise Unsupported("set operator with wrapper object")
             sa, sb = self.as_set(a, st).t, self.as_set(b, st).t
+            ecls = a.cls if a.k == "set" and a.cls else (b.cls if b.k == "set" else None)
             x = fresh("x", Val)
             if T is ast.BitOr:
                 res = fresh("U", SetSort)
                 st.define(z3.ForAll([x], z3.Select(res, x) == z3.Or(z3.Select(sa, x), z3.Select(sb, x))))
-                return sv_set(res)
+                return SV("set", res, cls=ecls)
             if T is ast.Sub:
                 res = fresh("D", SetSort)
                 st.define(z3.ForAll([x], z3.Select(res, x) == z3.And(z3.Select(sa, x), z3.Not(z3.Select(sb, x)))))
-                return sv_set(res)
+                return SV("set", res, cls=ecls)
             if T is ast.BitAnd:
                 res = fresh("I", SetSort)
                 st.define(z3.ForAll([x], z3.Select(res, x) == z3.And(z3.Select(sa, x), z3.Select(sb, x))))
-                return sv_set(res)
+                return SV("set", res, cls=ecls)
             raise Unsupported("set operator")
         if a.k == "bytes" and T is ast.Add and b.k == "bytes":
             return self.bytes_concat(a, b, st)
